@@ -113,7 +113,10 @@ type Table struct {
 	CommentAt int    `json:",omitempty"`
 }
 
-var comments = []string{"--1\n", "-- a note\n", "/* x */", "/* - 1 */", "--\n", "/**/", "/* ' */", "-- \"q\n", "/* a, b */", "--,\n"}
+var comments = []string{"--1\n", "-- a note\n", "/* x */", "/* - 1 */", "--\n", "/**/", "/* ' */", "-- \"q\n", "/* a, b */", "--,\n",
+	// a comment that starts with /*/ runs to the next */ like any other (the
+	// "toggle" idiom); what it hides would parse in its place
+	"/*/ UNIQUE /*/", "/*/ DESC /*/", "/*/ COLLATE NOCASE /*/", "/*/ NOT NULL UNIQUE /*/", "/*/*/", "/*/ , UNIQUE (a) */", "/* */ /*/ PRIMARY KEY /*/"}
 
 // withComment writes the comment after element at (mod the number of elements).
 func withComment(parts []string, comment string, at int) []string {
